@@ -16,24 +16,25 @@ def isArgsInToken : Str → Bool
           | [] => false))
       | [] => false)) || isArgsInToken cs
 
-/-- at a `$`: `\{?([0-9]+|@)\}?` — (key, rest after the optional closing brace) -/
+/-- `([0-9]+|@)` at the head of `s`: (key, rest) -/
+def argKey (s : Str) : Option (Str × Str) :=
+  match s with
+  | '@' :: r => some (['@'], r)
+  | _ =>
+    let ds := s.takeWhile isDigitA
+    if ds = [] then none else some (ds, s.dropWhile isDigitA)
+
+/-- `\}?` -/
+def dropBrace : Str → Str
+  | '}' :: r => r
+  | s => s
+
+/-- at a `$`: `\{?([0-9]+|@)\}?` — (key, rest after the optional closing brace).  If `{` is not followed
+by a key the regex retries without consuming it and then fails on the `{`. -/
 def argRefAt (cs : Str) : Option (Str × Str) :=
-  let body := match cs with
-    | '{' :: r => (match r with
-        | x :: _ => if isArgKeyChar x then r else cs
-        | [] => cs)
-    | _ => cs
-  -- if `{` is not followed by a key, the regex retries without consuming it and fails on `{`
-  let key : Option (Str × Str) := match body with
-    | '@' :: r => some (['@'], r)
-    | _ =>
-      let ds := body.takeWhile isDigitA
-      if ds = [] then none else some (ds, body.dropWhile isDigitA)
-  match key with
-  | none => none
-  | some (k, r) => match r with
-    | '}' :: r' => some (k, r')
-    | _ => some (k, r)
+  match cs with
+  | '{' :: r => (argKey r).map (fun (k, r') => (k, dropBrace r'))
+  | _ => (argKey cs).map (fun (k, r') => (k, dropBrace r'))
 
 /-- leftmost reference: (head, key, tail) of `^(.*?)\$\{?([0-9]+|@)\}?(.*)$` -/
 def findArgRef : Str → Str → Option (Str × Str × Str)
